@@ -188,11 +188,17 @@ func headClass(m map[string]string) string {
 
 // build returns the concatenated stream and the end offset of every frame.
 func build(h *sgetty.RpcPackageHandler, c Case) (stream []byte, ends []int, err error) {
+	// all frames are produced first and concatenated afterwards (a writer that queues packets): what
+	// Write returned for an earlier message must not change when later messages are written
+	var frames [][]byte
 	for _, m := range c.Msgs {
 		b, e := m.frame(h)
 		if e != nil {
 			return nil, nil, e
 		}
+		frames = append(frames, b)
+	}
+	for _, b := range frames {
 		stream = append(stream, b...)
 		ends = append(ends, len(stream))
 	}
